@@ -14,7 +14,7 @@ from gen import Gen
 from common import cerberus, real_error, canon_errors
 import cerberus.schema as cschema
 
-LEVEL = "proof"
+LEVEL = "exploration"
 COQ_FILES = []
 FACT_GROUPS = []
 ALLOWED_AXIOMS = []
